@@ -365,7 +365,14 @@ func (m *Monitors) touch(src string, sv *Server) {
 }
 
 func (m *Monitors) onDaemonStart(d *Daemon) {}
+type daemonGoneOracle interface{ onDaemonGone(inc string) }
+
 func (m *Monitors) onDaemonKill(d *Daemon) {
+	for _, o := range m.oracles {
+		if x, ok := o.(daemonGoneOracle); ok {
+			x.onDaemonGone(d.inc)
+		}
+	}
 	if it := m.iters[d.inc]; it != nil && it.open {
 		it.open = false
 		it.next = "<killed>"
